@@ -1,5 +1,4 @@
 SPECIFICATION GenSpec
 CONSTANTS
   Dev = {}
-  Models = {}
 CHECK_DEADLOCK FALSE
